@@ -58,6 +58,9 @@ CHECKS = {
  "C18": dict(technique="exhaustive enumeration of client message histories against the release binary (lock-step client; every byte prefix + end of input) with a lifecycle automaton as reference, plus stateless preemption-bounded exploration of all schedules of the real run() (tokio shim + shuttle, own bounded-DFS scheduler)",
    text="all histories over the 8-letter message alphabet up to length 4/5 against the built binary: one response per request, ids and order, prescribed result/error code per phase, exit status 0 after shutdown / 1 otherwise, termination after end of input; every (quick: every 6th + all frame boundaries) byte prefix of all sessions up to length 2/3 followed by end of input: prompt exit, output a well-formed prefix of the expected response stream; in process: every history that does not reach process::exit(1), pipelined, all schedules with <= 2/3 preemptions (one less for the longest histories), real and clamped channel capacities: no deadlock, run() returns Ok, all responses present when run() returns",
    note="lifecycle automaton lifecycle.rs is nondeterministic where the statement is silent; std::process::exit cannot be intercepted in process, hence the split; children run with TOKIO_WORKER_THREADS=4 (still the multi-threaded runtime)", ref="4/C18"),
+ "C19": dict(technique="deviation-bounded exhaustive enumeration of read segmentations (0, 1, 2 short reads; one byte per read) of whole sessions through the real FramedRead/LSCodec inside run(), Pending reads as scheduler choices under the bounded-DFS scheduler, differential oracle against the unsplit run; two-way splits replayed against the release binary",
+   text="six sessions (2..5-digit body lengths, non-ASCII document and non-ASCII server output, a frame larger than the initial read buffer, many small frames): every two-way split at every byte, three-way splits (all pairs for the minimal session, windowed otherwise), one byte per read: responses in order and notifications in order equal the unsplit run, every emitted frame has an exact Content-Length and a JSON body; minimal session: every two-way split under all schedules with <= 1/2 preemptions with a client task delivering the chunks; conformance: two-way splits against the binary with pipe-drain synchronised writes",
+   note="a read returns at most one written chunk (shim stdin); OS pipe behaviour trusted in the process runs", ref="4/C19"),
 }
 ALL = ["C%02d" % i for i in range(1, 21)]
 m = {
